@@ -15,7 +15,7 @@ Theorem break_lowering_correct : forall b s d tr o s' d',
 Proof. exact break_lowering_correct_lemma. Qed.
 
 Corollary break_lowering_correct_exec : forall n b s d tr o s' d',
-  exec_block n b s d = (tr, o, s', d') -> o <> OFuel -> plain_block b = true -> o <> OBrk ->
+  exec_block n b s d = (tr, o, s', d') -> done o -> plain_block b = true -> o <> OBrk ->
   forall sl, exists sl', run_block (fst (fst (brk_block 2 0 b))) sl d tr o sl' d'.
 Proof. intros n b s d tr o s' d' H Ho. apply (break_lowering_correct b s d tr o s' d'). apply (proj2 (exec_sound n)); assumption. Qed.
 
